@@ -15,7 +15,7 @@ func init() {
 		&Rule{ID: "R05.2", Props: []string{"C05", "C06"}, Floor: 4, Title: "enqueue: a full queue marks the operation failed, cancels it and returns an error; pins go to the pin queue and unpins to the unpin queue", Run: r052},
 		&Rule{ID: "R05.3", Props: []string{"C05"}, Floor: 6, Title: "worker phase discipline: in-progress before the IPFS call, error+cancel on failure, done+cancel then clean on success, nothing for cancelled operations", Run: r053},
 		&Rule{ID: "R05.4", Props: []string{"C05"}, Floor: 4, Title: "Track: meta pins are ignored, remote pins are unpinned (never queued for pinning), everything else is queued as a pin with the given pin object", Run: r054},
-		&Rule{ID: "R05.5", Props: []string{"C05"}, Floor: 3, Title: "TrackNewOperation dedupes only unfinished operations of the same type and cancels the operation it replaces, under the tracker lock", Run: r055},
+		&Rule{ID: "R05.5", Props: []string{"C05", "C06"}, Floor: 3, Title: "TrackNewOperation dedupes only unfinished operations of the same type and cancels the operation it replaces, under the tracker lock", Run: r055},
 		&Rule{ID: "R05.6", Props: []string{"C05"}, Floor: 2, Title: "the IPFS pin/unpin requests run under the operation's own context, so cancelling the operation stops the request", Run: r056},
 	)
 }
